@@ -118,7 +118,7 @@ theorem afterRoundTrip_auto (cfg : Cfg) (st : Nat) (cks : List Bytes)
     afterRoundTrip cfg st (Body.transport cks .eof) =
       { status := st, err := none, cache := some cks.flatten,
         body := some (Body.restored cks.flatten), out := none } := by
-  by_cases hr : cfg.result = true ∧ 199 < st ∧ st < 300 ∧ st ≠ 204
+  by_cases hr : wantsBind cfg st = true
   · simp [afterRoundTrip, autoRead, h1, h2, h3, hst, Resp.toBytes, Body.readAll_transport, Fin.toErr,
       handleDownload, Body.close, parseResponseBody, hr]
   · simp [afterRoundTrip, autoRead, h1, h2, h3, hst, Resp.toBytes, Body.readAll_transport, Fin.toErr,
@@ -218,7 +218,7 @@ open Req.Proto
 theorem afterRoundTrip_save (cfg : Cfg) (st : Nat) (cks : List Bytes) (h : cfg.save = true) :
     (afterRoundTrip cfg st (Body.transport cks .eof)).out = some cks.flatten ∧
     (afterRoundTrip cfg st (Body.transport cks .eof)).err = none := by
-  by_cases hr : cfg.result = true ∧ 199 < st ∧ st < 300 ∧ st ≠ 204
+  by_cases hr : wantsBind cfg st = true
   · simp [afterRoundTrip, autoRead, h, handleDownload, Body.readAll_transport, Fin.toErr, Body.close,
       parseResponseBody, hr, Resp.toBytes]
   · simp [afterRoundTrip, autoRead, h, handleDownload, Body.readAll_transport, Fin.toErr, Body.close,
@@ -227,7 +227,7 @@ theorem afterRoundTrip_save (cfg : Cfg) (st : Nat) (cks : List Bytes) (h : cfg.s
 theorem afterRoundTrip_stream (cfg : Cfg) (st : Nat) (cks : List Bytes) (fin : Fin)
     (hs : cfg.save = false)
     (h : cfg.clientDisable = true ∨ cfg.reqDisable = true ∨ st ≤ 199)
-    (hres : ¬ (cfg.result = true ∧ 199 < st ∧ st < 300 ∧ st ≠ 204)) :
+    (hres : wantsBind cfg st = false) :
     afterRoundTrip cfg st (Body.transport cks fin) =
       { status := st, err := none, cache := none, body := some (Body.transport cks fin), out := none } := by
   have : autoRead cfg { status := st, err := none, cache := none, body := some (Body.transport cks fin), out := none } = false := by
